@@ -139,6 +139,22 @@ def sibling(ctx, rule):
     ctx.check(calls == ["RamBundleHeader::is_valid_magic(arg2)"], rule, ISRB, "magic", "... and applies the same magic test as parse", detail=str(calls))
 
 
+def wrappers(ctx, rule):
+    RB = "ram_bundle::RamBundle::<'a>::"
+    b = ctx.body(RB + "parse_indexed_from_slice")
+    lit = [q.shape(b.expr_of_rvalue(s["rv"])) for bi, si, s, it in b.locations() if not it and s["k"] == "assign" and s["rv"]["k"] == "agg" and s["rv"].get("adt", "").endswith("RamBundle")]
+    ctx.check(lit == ["RamBundle{repr:RamBundleImpl::Indexed{0:try(IndexedRamBundle::parse(Cow::Borrowed{0:arg1}))}}"], rule, b.path, "parse", "parse_indexed_from_slice parses the given bytes as an indexed bundle (errors propagated)", detail=str(lit))
+    for fn, want in (("get_module", "IndexedRamBundle::get_module(indexed(arg1.repr),arg2)"), ("module_count", "IndexedRamBundle::module_count(indexed(arg1.repr))"), ("startup_code", "IndexedRamBundle::startup_code(indexed(arg1.repr))")):
+        w = ctx.body(RB + fn)
+        calls = [(bi, q.shape(w.expr_of_call(t))) for bi, t in w.calls()]
+        hit = [bi for bi, c in calls if c == want]
+        ok = len(hit) == 1 and has_fact(w, hit[0], {}, ("variant_in", "arg1.repr", (0,)))
+        ctx.check(ok, rule, w.path, "forward", "RamBundle::%s forwards to the indexed implementation for indexed bundles, arguments unchanged" % fn, detail=str(calls))
+    mc = ctx.body(IRB + "module_count")
+    rets = [q.shape(mc.expr_of_rvalue(s["rv"])) for bi, si, s, it in mc.locations() if not it and s["k"] == "assign" and s["place"]["l"] == 0]
+    ctx.check(rets == ["arg1.module_count"], rule, mc.path, "module_count", "module_count reports the count read from the header", detail=str(rets))
+
+
 def ram_pf(ctx, rule):
     paths = [PARSE, GETM, STARTUP, IRB + "module_count", ISRB, ITER, "ram_bundle::RamBundle::<'a>::parse_indexed_from_slice", "ram_bundle::RamBundle::<'a>::get_module", "ram_bundle::RamBundle::<'a>::module_count",
              "ram_bundle::RamBundle::<'a>::startup_code", "ram_bundle::RamBundle::<'a>::iter_modules", "ram_bundle::RamBundleHeader::is_valid_magic", "ram_bundle::ModuleEntry::is_empty"]
